@@ -260,6 +260,26 @@ def duplicate_definition_probes(ctx, ws):
                              f"a macro name defined more than once with a user in between: macro rule -> {str(rm[:2])[:200]}; written out -> {str(ri[:2])[:200]}")
 
 
+def same_call_other_body_probes(ctx, ws):
+    """Two rules compiled one after the other in one process: the same macro name, the very same call, another body - each rule compiles to
+    what its own written-out form compiles to ("several uses ... do not influence each other", also across rules). Identical at every seed."""
+    bodies = [[{"push": ["r"]}], [{"pop": ["r"]}], [{"$or": [{"push": ["r"]}, {"inc": ["r"]}]}], [{"push": ["r"]}]]
+    for spelling in ("beside", "nested"):
+        for k, body in enumerate(bodies):
+            call = {"@p": None, "r": "%rbx"} if spelling == "beside" else {"@p": {"r": "%rbx"}}
+            text_m = real.dump_rule({"macros": [{"name": "@p", "args": ["r"], "pattern": body}], "pattern": [call, "ret"]})
+            import json as _json
+            inl = _json.loads(_json.dumps(body).replace('"r"', '"%rbx"'))
+            text_i = real.dump_rule({"pattern": inl + ["ret"]})
+            rm, ri = real.compile_rule(ws.write("scb_m.yaml", text_m)), real.compile_rule(ws.write("scb_i.yaml", text_i))
+            ctx.ran(2)
+            ctx.event("same_call_other_body_probes")
+            ctx.case(("same-call-other-body", spelling, k), True, stratum="the same call under another definition", outcome=rm[0])
+            if rm[:2] != ri[:2]:
+                ctx.disagreement({"macro_rule": text_m, "extra_macro_files": [], "inlined_rule": text_i, "forms": ["times-body-probe"], "listing": "", "sinsts": []},
+                                 f"rule {k} of a sequence that repeats one call under other definitions of the macro: macro rule -> {str(rm[:2])[:200]}; written out -> {str(ri[:2])[:200]}")
+
+
 def run_shard(ctx):
     d = drive.Driver(ctx, feat, flags="none", styles=("mixed", "dups", "runs"))
     library_sequence_stratum(ctx, d.ws, ctx.share(48, 2000))
@@ -269,6 +289,8 @@ def run_shard(ctx):
         times_body_probes(ctx, d.ws)
     if ctx.shard == 5 % ctx.nshards:
         duplicate_definition_probes(ctx, d.ws)
+    if ctx.shard == 6 % ctx.nshards:
+        same_call_other_body_probes(ctx, d.ws)
     n = ctx.share(2000, 250000)
     done = 0
     while done < n:
